@@ -81,12 +81,17 @@ Section ToJson.
     | PDict d => JDict (map (fun kv => (fst kv, to_json_o (snd kv))) d)
     | PObj c fs =>
         let fxs := match slookup c ctx with Some fxs => fxs | None => [] end in
+        (* the members in schema order, each against its field *)
         JDict ((KS s_type, JStr c) ::
-               flat_map (fun kv =>
-                           match flookup_x (fst kv) fxs with
-                           | Some fx => if hidden o fx (snd kv) then [] else [(KS (fst kv), to_json_o (snd kv))]
-                           | None => [(KS (fst kv), to_json_o (snd kv))]
-                           end) fs)
+               (fix emit (fxs : list fieldx) (fs : list (str * pv)) {struct fs} : list (key * jv) :=
+                  match fs with
+                  | [] => []
+                  | nx :: fs' =>
+                      match fxs with
+                      | fx :: fxs' => (if hidden o fx (snd nx) then [] else [(KS (fst nx), to_json_o (snd nx))]) ++ emit fxs' fs'
+                      | [] => (KS (fst nx), to_json_o (snd nx)) :: emit [] fs'
+                      end
+                  end) fxs fs)
     end.
 End ToJson.
 
